@@ -1038,7 +1038,7 @@ def null_model_und_sign(W, bin_swaps=5, wei_freq=.1, seed=None):
         (such as the Kolmogorov-Smirnov test) if desired.
     '''
     rng = get_rng(seed)
-    if not np.allclose(W, W.T):
+    if not np.array_equal(W, W.T):
         raise BCTParamError("Input must be undirected")
     W = W.astype(float)  # private float copy (in-place float updates below)
     n = len(W)
